@@ -64,7 +64,7 @@ class C19(P.Property):
                    "exception type is prescribed only for out-of-range reads (IndexError) and closed-array use (ValueError); "
                    "a refused write may raise any exception"]
     probe_names = ["neg_read_after_reopen", "neg_read_last_chunk_unopened", "slice_fail_pos_ge1", "neg_step_slice_fail",
-                   "len_not_multiple_of_chunk", "chunk_gt_len", "op_while_closed", "reopen", "step0_slice", "from_list"]
+                   "len_not_multiple_of_chunk", "chunk_gt_len", "op_while_closed", "reopen", "step0_slice", "from_list", "bystander_array", "interleaved_iteration"]
 
     def setup(self):
         from .. import world
@@ -77,6 +77,9 @@ class C19(P.Property):
         rng = P.stream(seed, "workload")
         n = rng.randint(1, 40) if rng.random() < 0.7 else rng.randint(1, 8)
         isz = rng.randint(1, 9)
+        if rng.random() < 0.06:  # beyond the quantifier's box: the statement says "every array length, item size and chunk size"
+            n = rng.choice([64, 100, 129, 256, 300])
+            isz = rng.choice([1, 16, 33, 64, 200])
         chunk = rng.choice([1, n, n + 1, n + 2, max(1, n - 1), rng.randint(1, n + 2), rng.randint(1, n + 2),
                             max(1, n // 2), max(1, n // 2 + 1)])
         init = None
@@ -85,7 +88,13 @@ class C19(P.Property):
             init[rng.randrange(len(init))] = hx(rng.randbytes(isz))
         # swarm: which op kinds are enabled in this run
         allops = ["get", "set", "setbad", "del", "gslice", "sslice", "sslice_bad", "dslice", "clear", "iter", "contains",
-                  "len", "reopen", "close", "reversed", "count", "getneg"]
+                  "len", "reopen", "close", "reversed", "count", "getneg", "iter2"]
+        bystander = None
+        if rng.random() < 0.25:
+            # a second, unrelated array open in the same process while the history runs
+            bn = rng.randint(1, 12)
+            bystander = {"n": bn, "isz": rng.choice([isz, rng.randint(1, 9)]), "chunk": rng.choice([chunk, 1, bn, rng.randint(1, bn + 1)])}
+            allops += ["by", "by", "by"]
         enabled = [o for o in allops if rng.random() < 0.75] or ["get", "set", "reopen"]
         if rng.random() < 0.6 and "reopen" not in enabled:
             enabled.append("reopen")
@@ -145,9 +154,16 @@ class C19(P.Property):
                 steps.append({"op": "contains", "pick": rng.randrange(n + 1), "v": hx(rng.randbytes(isz))})
             elif op == "count":
                 steps.append({"op": "count", "pick": rng.randrange(n)})
+            elif op == "close":
+                steps.append({"op": op, "ctx": rng.random() < 0.3})
+            elif op == "iter2":
+                steps.append({"op": op, "reads": [rng.randrange(n) for _ in range(rng.randint(1, 4))], "twin": rng.random() < 0.3})
+            elif op == "by":
+                bd = rng.choice(["set", "set", "get", "reopen", "clear"])
+                steps.append({"op": "by", "do": bd, "i": rng.randrange(bystander["n"]), "v": hx(rng.randbytes(rng.randint(0, bystander["isz"])))})
             else:
                 steps.append({"op": op})
-        return {"property": "C19", "seed": seed, "geom": {"n": n, "isz": isz, "chunk": chunk, "init": init}, "steps": steps}
+        return {"property": "C19", "seed": seed, "geom": {"n": n, "isz": isz, "chunk": chunk, "init": init, "bystander": bystander}, "steps": steps}
 
     # ------------------------------------------------------------------ execution
     def execute(self, plan):
@@ -183,6 +199,22 @@ class C19(P.Property):
         since_reopen = 0  # operations since the last (re)open
         nfiles = math.ceil(n / chunk)
         allowed = {"arr_meta"} | {f"arr_{k}" for k in range(nfiles)}
+        by = g.get("bystander")
+        b = bmodel = None
+        bpath = os.path.join(D, "other")
+        if by:
+            probe("bystander_array")
+            b = cls.create(bpath, item_size=by["isz"], array_len=by["n"], item_num_in_one_file=by["chunk"])
+            bmodel = [b"\x00" * by["isz"]] * by["n"]
+            allowed |= {"other_meta"} | {f"other_{k}" for k in range(math.ceil(by["n"] / by["chunk"]))}
+
+        def by_check(si):
+            got = outcome(lambda: b[:])
+            if got != ("ok", bmodel):
+                viol.append(V("C19.state", "MODEL_MISMATCH", f"step {si}: a second, unrelated array open in the same process reads {got!r:.60}, "
+                                                          f"its own list model differs (arrays interfere)", step=si))
+                return False
+            return True
         touched_last = g.get("init") is not None and len(g["init"]) > (nfiles - 1) * chunk
 
         def files_ok(si):
@@ -203,6 +235,31 @@ class C19(P.Property):
         try:
             for si, st in enumerate(plan["steps"]):
                 op = st["op"]
+                if op == "by":
+                    if b is None:
+                        continue
+                    bd = st["do"]
+                    if bd == "set":
+                        v = unhx(st["v"])[:by["isz"]]
+                        o = outcome(lambda: b.__setitem__(st["i"] % by["n"], v))
+                        if o[0] != "ok":
+                            viol.append(V("C19.write", "MODEL_MISMATCH", f"step {si}: write to the second array failed: {o}", step=si))
+                            break
+                        bmodel[st["i"] % by["n"]] = pad(v, by["isz"])
+                    elif bd == "clear":
+                        b.clear()
+                        bmodel = [b"\x00" * by["isz"]] * by["n"]
+                    elif bd == "reopen":
+                        b.close()
+                        b = cls.open(bpath)
+                    obs.append(("by", bd))
+                    if not by_check(si):
+                        break
+                    if not closed and not full_check(si, "after an operation on a second, unrelated array"):
+                        break
+                    if not files_ok(si):
+                        break
+                    continue
                 if closed and op != "reopen":
                     probe("op_while_closed")
                     f = self._closed_op(a, st, isz)
@@ -363,6 +420,34 @@ class C19(P.Property):
                     if got != ("ok", model):
                         viol.append(V("C19.read", "MODEL_MISMATCH", f"step {si}: list(a) differs from model", step=si))
                         break
+                elif op == "iter2":
+                    # iteration interleaved with other reads of the same array (and optionally a second iterator)
+                    probe("interleaved_iteration")
+
+                    def walk():
+                        it = iter(a)
+                        it2 = iter(a) if st.get("twin") else None
+                        out_, bad_ = [], None
+                        for k in range(n):
+                            out_.append(next(it))
+                            j = st["reads"][k % len(st["reads"])] % n
+                            if a[j] != model[j]:
+                                bad_ = ("read", j)
+                            if it2 is not None and k % 2 == 0:
+                                if next(it2) != model[k // 2]:
+                                    bad_ = ("second iterator", k // 2)
+                        try:
+                            next(it)
+                            bad_ = ("no StopIteration", n)
+                        except StopIteration:
+                            pass
+                        return out_, bad_
+                    got = outcome(walk)
+                    obs.append((op, got[0]))
+                    if got[0] != "ok" or got[1][0] != model or got[1][1] is not None:
+                        what = got if got[0] != "ok" else (got[1][1] or [i for i in range(n) if got[1][0][i] != model[i]][:5])
+                        viol.append(V("C19.read", "MODEL_MISMATCH", f"step {si}: iteration interleaved with other reads differs from the list model: {what!r:.80}", step=si))
+                        break
                 elif op == "reversed":
                     got = outcome(lambda: list(reversed(a)))
                     obs.append((op, got[0]))
@@ -408,7 +493,11 @@ class C19(P.Property):
                     # the content check is left to later reads / the final check so that the
                     # lazily filled file cache stays empty for the next operation
                 elif op == "close":
-                    a.close()
+                    if st.get("ctx"):
+                        with a:  # leaving the with-block closes the array
+                            pass
+                    else:
+                        a.close()
                     closed = True
                     obs.append((op, "ok"))
                 since_reopen += 1
@@ -435,9 +524,16 @@ class C19(P.Property):
                         a = o[1]
                         full_check(nst, "final, after close and reopen")
                 files_ok(nst)
+            if b is not None and not viol:
+                by_check(len(plan["steps"]))
         finally:
             try:
                 a.close()
+            except Exception:
+                pass
+            try:
+                if b is not None:
+                    b.close()
             except Exception:
                 pass
         geomcls = (n % chunk == 0, chunk > n, chunk == 1)
@@ -466,7 +562,7 @@ class C19(P.Property):
             return lambda: a.__delitem__(slice(None))
         if op == "clear":
             return lambda: a.clear()
-        if op == "iter":
+        if op in ("iter", "iter2"):
             return lambda: list(a)
         if op == "reversed":
             return lambda: list(reversed(a))
@@ -483,6 +579,8 @@ class C19(P.Property):
         g = plan["geom"]
         if g.get("init") is not None:
             yield dict(plan, geom=dict(g, init=None))
+        if g.get("bystander") is not None:
+            yield dict(plan, geom=dict(g, bystander=None))
         for i, st in enumerate(plan["steps"]):
             if st.get("ba"):
                 yield dict(plan, steps=plan["steps"][:i] + [dict(st, ba=False)] + plan["steps"][i + 1:])
